@@ -50,6 +50,7 @@ type frame struct {
 	panic            any
 	phitemps         []value // temporaries for parallel phi assignment
 	cur              ssa.Instruction
+	resume           int // index in block.Instrs at which to resume (package initialisers only)
 }
 
 // If the target program panics, the interpreter panics with this type.
@@ -547,6 +548,15 @@ func runFrame(fr *frame) {
 			return // normal return
 		}
 		p := recover()
+		if isPkgInit(fr.fn) {
+			if ab, ok := p.(engineAbort); !ok || ab.kind != abStop {
+				// a variable initialiser could not be executed: poison that
+				// variable and resume with the next initialiser
+				if fr.w.skipFailedInitialiser(fr, p) {
+					return
+				}
+			}
+		}
 		if ab, ok := p.(engineAbort); ok {
 			panic(ab) // engine control flow: no target defers, no target recover
 		}
@@ -579,7 +589,13 @@ func runFrame(fr *frame) {
 		if w.fuel <= 0 {
 			panic(engineAbort{kind: abFuel, msg: "fuel exhausted in " + fr.fn.String()})
 		}
-		nonPhis := executePhis(fr)
+		var nonPhis []ssa.Instruction
+		if fr.resume > 0 {
+			nonPhis = fr.block.Instrs[fr.resume:]
+			fr.resume = 0
+		} else {
+			nonPhis = executePhis(fr)
+		}
 		for _, instr := range nonPhis {
 			fr.cur = instr
 			if w.trace && w.traceInstr {
@@ -713,4 +729,57 @@ func getFuncInfo(fn *ssa.Function) *funcInfo {
 	}
 	act, _ := funcInfos.LoadOrStore(fn, fi)
 	return act.(*funcInfo)
+}
+
+// skipFailedInitialiser handles a failure inside a package initialiser: the
+// global whose initialiser was being computed (the next Store to a global in
+// the current block) is poisoned and execution resumes after that Store.
+func (w *world) skipFailedInitialiser(fr *frame, p any) bool {
+	if fr.block == nil || fr.cur == nil {
+		return false
+	}
+	idx := -1
+	for i, in := range fr.block.Instrs {
+		if in == fr.cur {
+			idx = i
+			break
+		}
+	}
+	if idx < 0 {
+		return false
+	}
+	msg := fmt.Sprint(p)
+	if ab, ok := p.(engineAbort); ok {
+		msg = ab.msg
+	}
+	if tp, ok := p.(targetPanic); ok {
+		msg = "panic: " + toString(tp.v)
+	}
+	for j := idx; j < len(fr.block.Instrs); j++ {
+		st, ok := fr.block.Instrs[j].(*ssa.Store)
+		if !ok {
+			continue
+		}
+		g, ok := st.Addr.(*ssa.Global)
+		if !ok {
+			continue
+		}
+		if j == idx {
+			// the store itself failed: nothing to skip
+		}
+		w.poisoned[g] = msg
+		w.ex.mu.Lock()
+		w.ex.initFailed[g.String()] = msg
+		w.ex.mu.Unlock()
+		if j+1 >= len(fr.block.Instrs) {
+			return false
+		}
+		fr.resume = j + 1
+		fr.panicking = false
+		fr.panic = nil
+		fr.defers = nil
+		w.depth = 1
+		return true
+	}
+	return false
 }
